@@ -62,6 +62,12 @@ def readStreamData (inp : Bytes) (off : Nat) (declared : Option Nat) : Except Er
   | some e =>
     let data := r0.drop e
     let start := off + 6 + e
+    -- `endstreamAt(origReader, start+declared)`: the int64 sum wraps for lengths near 2^63, the
+    -- `ReadAt` at a negative offset fails, and that error is returned (no recovery)
+    let overflow := match declared with
+      | some d => decide (start + d ≥ 9223372036854775808)
+      | none => false
+    if overflow then .error .other else
     let useDeclared := match declared with
       | some d => endstreamAt (data.drop d)
       | none => false
@@ -80,8 +86,9 @@ def readStreamData (inp : Bytes) (off : Nat) (declared : Option Nat) : Except Er
 def kLen : Bytes := [76, 101, 110, 103, 116, 104]
 
 /-- `ReadObject` at the top level of an indirect object: like `readObject`, but a dictionary
-    followed by `stream` becomes a stream.  `getInt` resolves `/Length`. -/
-def readTopObject (inp : Bytes) (off : Nat) (getInt : Obj → Option Int) : Except Err (RObj × Bytes) :=
+    followed by `stream` becomes a stream.  `getInt` resolves `/Length`.  (`endstreamAt` and
+    `trimTrailingEOL` read the file, which is held in memory here: their read errors do not arise.) -/
+def readTopObject (inp : Bytes) (off : Nat) (getInt : Obj → Except Err Int) : Except Err (RObj × Bytes) :=
   match inp with
   | 60 :: 60 :: _ =>
     (match readDict (scanFuel inp) 0 inp with
@@ -89,20 +96,27 @@ def readTopObject (inp : Bytes) (off : Nat) (getInt : Obj → Option Int) : Exce
      | .ok (d, r) =>
        let (r', _) := skipWS r
        if startsWith r' kw_stream then
-         let declared : Option Nat :=
+         -- `getInt`: a malformed-file error or the end of the data means "length unknown" (the
+         -- extent is recovered by the search for `endstream`); any other error is returned
+         let declared : Except Err (Option Nat) :=
            match dictGet d kLen with
            | some l => (match getInt l with
-                        | some n => if n ≥ 0 then some n.toNat else none
-                        | none => none)
-           | none => none
-         match readStreamData r' (off + (inp.length - r'.length)) declared with
+                        | .ok n => .ok (if n ≥ 0 then some n.toNat else none)
+                        | .error .malformed => .ok none
+                        | .error .eof => .ok none      -- `isEndOfData`: the length object is cut off
+                        | .error e => .error e)
+           | none => .ok none
+         match declared with
          | .error e => .error e
-         | .ok (start, len, rest) => .ok (.stream (d.filter fun e => e.1 != kLen) start len, rest)
+         | .ok declared =>
+           match readStreamData r' (off + (inp.length - r'.length)) declared with
+           | .error e => .error e
+           | .ok (start, len, rest) => .ok (.stream (d.filter fun e => e.1 != kLen) start len, rest)
        else .ok (.plain (.dict d), r'))
   | _ => (readObject (scanFuel inp) 0 inp).map fun (o, r) => (.plain o, r)
 
 /-- `ReadIndirectObject`: object, reference (number, generation) and the rest of the input -/
-def readIndirectObject (inp : Bytes) (off : Nat) (getInt : Obj → Option Int) :
+def readIndirectObject (inp : Bytes) (off : Nat) (getInt : Obj → Except Err Int) :
     Except Err (RObj × Nat × Nat × Bytes) :=
   match readIntegerE inp with
   | .error e => .error e
@@ -184,8 +198,37 @@ def getObjStm (dict : List (Bytes × Obj)) (content : Bytes) : Except Err (List 
        | _ => .error .malformed)
   | _ => .error .malformed
 
+/-- `scanner.readReferenceTail(a, end)` behind the integer `a` of an object-stream member: white
+    space (comments included), an integer, white space, `R`; the reference must end at or before
+    `end` (the next member's offset, if any); unless it ends exactly there, the `R` must not be
+    followed by a regular byte; `a` and `g` within the limits of references.  Malformed input or
+    the end of the data mean "not a reference" (read errors do not arise in the model). -/
+def readReferenceTail (content : Bytes) (a : Int) (rest : Bytes) (end_ : Option Nat) : Option (Nat × Nat) :=
+  match skipWS rest with
+  | (_, true) => none
+  | (r1, false) =>
+    match readInteger r1 with
+    | .error _ => none
+    | .ok (b, r2) =>
+      match skipWS r2 with
+      | (_, true) => none
+      | (r3, false) =>
+        match r3 with
+        | 82 :: r4 =>
+          let pos := content.length - r4.length
+          let tooFar := match end_ with | some e => decide (pos > e) | none => false
+          if tooFar then none else
+          let peek := match end_ with | some e => decide (pos < e) | none => true
+          let regularNext := peek && (match r4 with | c :: _ => isRegular c | [] => false)
+          if regularNext then none
+          else if a < 0 || a ≥ Gen.fio_maxXRefSize || b < 0 || b > Gen.fio_maxGeneration then none
+          else some (a.toNat, b.toNat)
+        | _ => none
+
 /-- `getFromObjStm` after `getObjStm`: find the number, skip to its offset, read one object.
-    `none` = the object is reported as absent (offset before the end of the header). -/
+    `none` = the object is reported as absent (offset before the end of the header).
+    A member that reads as an integer is completed to a reference when `g R` follows within the
+    member (`readReferenceTail`, up to the next member's offset). -/
 def getFromObjStm (idx : List (Nat × Nat)) (headEnd : Nat) (content : Bytes) (number : Nat) :
     Except Err (Option Obj) :=
   match idx.find? (fun p => p.1 == number) with
@@ -197,6 +240,14 @@ def getFromObjStm (idx : List (Nat × Nat)) (headEnd : Nat) (content : Bytes) (n
       let inp := content.drop offs
       match readObject (scanFuel inp) 0 inp with
       | .error e => .error e
+      | .ok (.int a, rest) =>
+        let later := (idx.filter fun p => p.2 > offs).map (·.2)
+        let end_ := match later with
+          | [] => none
+          | e :: es => some (es.foldl min e)
+        (match readReferenceTail content a rest end_ with
+         | some (n, g) => .ok (some (.ref n g))
+         | none => .ok (some (.int a)))
       | .ok (o, _) => .ok (some o)
 
 /-- the free/generation test at the start of `Reader.get` -/
@@ -225,7 +276,7 @@ def decodeSimple (inflate : Bytes → Option Bytes) (dict : List (Bytes × Obj))
     object at its offset (with the check that the file agrees with the reference), or the member
     of an object stream.  `hdrOff` = offset of `%PDF-`. -/
 def readerGet (file : Bytes) (m : XMap) (hdrOff : Nat) (inflate : Bytes → Option Bytes)
-    (getInt : Obj → Option Int) (num gen : Nat) : Except Err (Option RObj) :=
+    (getInt : Obj → Except Err Int) (num gen : Nat) : Except Err (Option RObj) :=
   if !entryUsable (m.get num) gen then .ok none else
   match m.get num with
   | none => .ok none
